@@ -8,6 +8,7 @@ package harness
 import (
 	"bytes"
 	"fmt"
+	"strings"
 
 	"github.com/wi1dcard/fingerproxy/pkg/http2"
 )
@@ -31,6 +32,14 @@ type schedMonitor struct {
 	seq     int
 	failed  bool
 	ops     int
+	oplog   []string // the last operations, for the violation report
+}
+
+func (m *schedMonitor) logOp(format string, args ...any) {
+	m.oplog = append(m.oplog, fmt.Sprintf(format, args...))
+	if len(m.oplog) > 60 {
+		m.oplog = m.oplog[len(m.oplog)-60:]
+	}
 }
 
 type SchedStats struct {
@@ -58,7 +67,7 @@ func (m *schedMonitor) bad(class, format string, args ...any) {
 		return
 	}
 	m.failed = true
-	m.w.Violate(class, class, "write scheduler %q after %d operations: %s", m.kind, m.ops, fmt.Sprintf(format, args...))
+	m.w.Violate(class, class, "write scheduler %q after %d operations: %s | last operations: %s", m.kind, m.ops, fmt.Sprintf(format, args...), strings.Join(m.oplog, "; "))
 }
 
 func (m *schedMonitor) tree(where string) {
@@ -74,12 +83,14 @@ func (m *schedMonitor) tree(where string) {
 
 func (m *schedMonitor) OpenStream(id uint32, o http2.OpenStreamOptions) {
 	m.ops++
+	m.logOp("Open(%d,pusher=%d)", id, o.PusherID)
 	m.inner.OpenStream(id, o)
 	m.tree(fmt.Sprintf("OpenStream(%d)", id))
 }
 
 func (m *schedMonitor) CloseStream(id uint32) {
 	m.ops++
+	m.logOp("Close(%d)", id)
 	m.w.mu.Lock()
 	m.w.Sched.Closes++
 	m.w.Sched.DroppedByClose += len(m.streams[id])
@@ -91,6 +102,7 @@ func (m *schedMonitor) CloseStream(id uint32) {
 
 func (m *schedMonitor) AdjustStream(id uint32, p http2.PriorityParam) {
 	m.ops++
+	m.logOp("Adjust(%d,dep=%d,excl=%v,w=%d)", id, p.StreamDep, p.Exclusive, p.Weight)
 	m.w.mu.Lock()
 	m.w.Sched.Adjusts++
 	m.w.mu.Unlock()
@@ -101,6 +113,7 @@ func (m *schedMonitor) AdjustStream(id uint32, p http2.PriorityParam) {
 func (m *schedMonitor) Push(wr http2.FrameWriteRequest) {
 	m.ops++
 	v := http2.VerifInspect(wr)
+	m.logOp("Push(%s,stream=%d,len=%d)", v.Kind, v.StreamID, len(v.Data))
 	m.seq++
 	e := &mwr{seq: m.seq, kind: v.Kind, isData: v.IsData, endStream: v.EndStream, wr: wr}
 	if v.IsData {
@@ -130,6 +143,12 @@ func (m *schedMonitor) Pop() (http2.FrameWriteRequest, bool) {
 		}
 	}
 	wr, ok := m.inner.Pop()
+	if ok {
+		pv := http2.VerifInspect(wr)
+		m.logOp("Pop->%s(stream=%d,len=%d)", pv.Kind, pv.StreamID, len(pv.Data))
+	} else {
+		m.logOp("Pop->none")
+	}
 	m.w.mu.Lock()
 	m.w.Sched.Pops++
 	if !ok {
